@@ -194,6 +194,10 @@ func (pb *PrimaryBlock) UnmarshalCbor(r io.Reader) error {
 
 	if crcT, err := cboring.ReadUInt(r); err != nil {
 		return err
+	} else if _, err := emptyCRC(CRCType(crcT)); err != nil {
+		return err
+	} else if hasCrc := blockLen == 9 || blockLen == 11; hasCrc != (CRCType(crcT) != CRCNo) {
+		return fmt.Errorf("array of %d elements does not match CRC type %d", blockLen, crcT)
 	} else {
 		pb.CRCType = CRCType(crcT)
 	}
